@@ -55,10 +55,22 @@ SMALL = 1.0 / 1024      # the property does not depend on the unit: every third 
                         # (exact in binary floating point), and the answer is scaled back before it is abstracted
 
 
+DECI = 0.1               # ... and every third on coordinates in tenths (decimal numbers as a file holds them: NOT exact in binary
+                         # floating point; the answer, scaled back, is snapped to the lattice of exact answers within 1e-9)
+
+
 def scale_of(*pts):
     h = 0
     for p in pts:
         h = h * 31 + int(p[0]) * 7 + int(p[1]) * 13
+    if h % 3 == 1:
+        # the first argument is the query in two of the three callers: look at every consecutive pair of the others as well
+        # (a pair with equal x and different y is a vertical segment; pairing the query with a vertex only makes the test wider).
+        # Polylines with a vertical segment stay on exact coordinates: that branch is the known finding, identified by the
+        # exact transcription of what it returns, which rounding would blur
+        if any(pts[k][0] == pts[k + 1][0] and pts[k][1] != pts[k + 1][1] for k in range(len(pts) - 1)):
+            return 1
+        return DECI
     return SMALL if h % 3 == 0 else 1
 
 
